@@ -17,13 +17,17 @@ def main():
         if os.path.exists(notes):
             lines = [l for l in open(notes, encoding="utf-8").read().splitlines() if l.strip()]
             title = re.sub(r"^#+\s*", "", lines[0]) if lines else ""
-            title = re.sub(r"^(C\d+\s*/?\s*)?(seed2\s*)?[Cc]andidate\s*\d+\s*[-:–]\s*", "", title)
+            title = re.sub(r"^(C\d+\s*/?\s*)?((seed|round|wave)\s*\d\s*/?\s*)?[Cc]and(idate)?\s*\(?[^)]*?\)?\s*\d*\s*(\([^)]*\))?\s*[-:–]\s*", "", title)
             title = re.sub(r"^C\d+\s+candidate\s*\d+\s*[-:–]\s*", "", title)
         first = meta.get("first_run", {})
         cur = meta.get("current", {})
         sig = (cur.get("signatures") or [""])[0]
         first_txt = "yes" if first.get("detected") else ("no" if first else "-")
         cur_txt = "yes" if cur.get("detected") else ("NO" if cur else "?")
+        others = [c for c, v in (cur.get("other_checks") or {}).items() if v.get("exit") == 1]
+        if not cur.get("detected") and others:
+            cur_txt = "by " + "/".join(others)
+            sig = ((cur.get("other_checks") or {})[others[0]].get("signatures") or [""])[0]
         rows.append(f"| {meta['id']} | {title[:95].replace('|', '/')} | {first_txt} | {cur_txt} | `{sig[:90].replace('|', ' / ')}` |")
     print("| seed | change (author's title) | caught by the check as it was when the seed arrived | caught now | first signature reported by the property's check |")
     print("|---|---|---|---|---|")
